@@ -2,6 +2,7 @@ import GV.Model.MultiAsset
 import GV.Proofs.MultiAsset
 import GV.Proofs.MultiAssetEnc
 import GV.Proofs.MultiAssetDec
+import GV.Proofs.MultiAssetW
 /-!
 C06 — Multi-asset values behave as a commutative group up to zeros.
 
@@ -159,6 +160,78 @@ example :
     · exact ⟨by decide, trivial⟩
     · exact ⟨by decide, by decide, by decide⟩
   · exact ⟨by decide, by decide, by intro x hx; cases hx⟩
+
+
+-- ------------------------------------------------------------------ fixed-width instantiations
+
+/-! `MultiAsset[int64]` / `MultiAsset[uint64]` (not instantiated outside tests: outputs and mint use
+`*big.Int`).  Quantities are integers of the type's range and never nil, so `compare_iff` and its
+corollaries apply to them as they stand; `Add` is `addW w` with `w` the machine wrap. -/
+
+open GV.Proofs.MultiAssetW in
+/-- `Add` on a fixed-width instantiation is per-asset integer addition followed by the machine wrap
+    `w`, for every iteration order of the operand, on a receiver holding values of the type. -/
+theorem addW_qty (w : Int → Int) (a b : MA) (hb : WF b) (hR : ∀ p n, w (qty a p n) = qty a p n)
+    (p n : Bytes) : qty (addW w a b) p n = w (qty a p n + qty b p n) :=
+  qty_addW w a b hb hR p n
+
+open GV.Proofs.MultiAssetW in
+theorem addW_wf (w : Int → Int) (a b : MA) (ha : WF a) : WF (addW w a b) := wf_addW w b ha
+
+open GV.Proofs.MultiAssetW in
+/-- `int64`: the result is the two's-complement wrap of the integer sum; it IS the integer sum
+    exactly when that sum is representable (no overflow). -/
+theorem add_qty_int64 (a b : MA) (hb : WF b) (hR : ∀ p n, isInt64 (qty a p n) = true) (p n : Bytes) :
+    qty (addW wrapS64 a b) p n = wrapS64 (qty a p n + qty b p n) ∧
+    (isInt64 (qty a p n + qty b p n) = true → qty (addW wrapS64 a b) p n = qty a p n + qty b p n) := by
+  have h := qty_addW wrapS64 a b hb (fun p n => wrapS64_id _ (hR p n)) p n
+  exact ⟨h, fun hs => by rw [h, wrapS64_id _ hs]⟩
+
+open GV.Proofs.MultiAssetW in
+/-- `uint64`: likewise modulo 2^64. -/
+theorem add_qty_uint64 (a b : MA) (hb : WF b) (hR : ∀ p n, isUint64 (qty a p n) = true) (p n : Bytes) :
+    qty (addW wrapU64 a b) p n = wrapU64 (qty a p n + qty b p n) ∧
+    (isUint64 (qty a p n + qty b p n) = true → qty (addW wrapU64 a b) p n = qty a p n + qty b p n) := by
+  have h := qty_addW wrapU64 a b hb (fun p n => wrapU64_id _ (hR p n)) p n
+  exact ⟨h, fun hs => by rw [h, wrapU64_id _ hs]⟩
+
+open GV.Proofs.MultiAssetW in
+/-- commutative under `Compare`, overflow or not -/
+theorem addW_comm (w : Int → Int) (a b : MA) (ha : WF a) (hb : WF b)
+    (hRa : ∀ p n, w (qty a p n) = qty a p n) (hRb : ∀ p n, w (qty b p n) = qty b p n) :
+    GV.Model.MultiAsset.compare (addW w a b) (addW w b a) = true := by
+  rw [compare_iff _ _ (wf_addW w b ha) (wf_addW w a hb)]
+  intro p n
+  rw [qty_addW w a b hb hRa, qty_addW w b a ha hRb, Int.add_comm]
+
+open GV.Proofs.MultiAssetW in
+/-- associative under `Compare` for every wrap that is idempotent and compatible with addition
+    (both machine wraps are: `wrapS64_idem/_add`, `wrapU64_idem/_add`) -/
+theorem addW_assoc (w : Int → Int) (hidem : ∀ x, w (w x) = w x) (hadd : ∀ x y, w (w x + y) = w (x + y))
+    (a b c : MA) (ha : WF a) (hb : WF b) (hc : WF c)
+    (hRa : ∀ p n, w (qty a p n) = qty a p n) (hRb : ∀ p n, w (qty b p n) = qty b p n) :
+    GV.Model.MultiAsset.compare (addW w (addW w a b) c) (addW w a (addW w b c)) = true := by
+  have hab : ∀ p n, w (qty (addW w a b) p n) = qty (addW w a b) p n := by
+    intro p n; rw [qty_addW w a b hb hRa, hidem]
+  rw [compare_iff _ _ (wf_addW w c (wf_addW w b ha)) (wf_addW w _ ha)]
+  intro p n
+  rw [qty_addW w _ c hc hab, qty_addW w a b hb hRa, qty_addW w a _ (wf_addW w c hb) hRa,
+    qty_addW w b c hc hRb, hadd]
+  rw [Int.add_comm (qty a p n) (w _), hadd, Int.add_comm _ (qty a p n), Int.add_assoc]
+
+open GV.Proofs.MultiAssetW in
+/-- the two machine wraps meet the hypotheses of `addW_assoc` -/
+theorem machine_wraps :
+    (∀ x, wrapS64 (wrapS64 x) = wrapS64 x) ∧ (∀ x y, wrapS64 (wrapS64 x + y) = wrapS64 (x + y)) ∧
+    (∀ x, wrapU64 (wrapU64 x) = wrapU64 x) ∧ (∀ x y, wrapU64 (wrapU64 x + y) = wrapU64 (x + y)) :=
+  ⟨wrapS64_idem, wrapS64_add, wrapU64_idem, wrapU64_add⟩
+
+/-- Non-vacuity and the overflow behaviour: MaxInt64 + 1 wraps to MinInt64; MaxUint64 + 1 to 0. -/
+example :
+    qty (addW wrapS64 [([1], [([7], some 9223372036854775807)])] [([1], [([7], some 1)])]) [1] [7]
+      = -9223372036854775808 ∧
+    qty (addW wrapU64 [([1], [([7], some 18446744073709551615)])] [([1], [([7], some 1)])]) [1] [7] = 0 := by
+  decide
 
 /-- Non-vacuity: two different lists (orders, zero and nil entries) that are equal values. -/
 example : WF [([1], [([7], some 5), ([8], none)]), ([2], [])] ∧
